@@ -1207,7 +1207,23 @@ func main() {
 							}
 						}
 
-						// TODO get from events
+						// This will get value to report on events
+						glist, err := bondmachine.EventListGet(shutDownSim, srep, srepOld, vm, oldVm)
+						if err != nil {
+							log.Fatal(err)
+						}
+						for k := range glist {
+							alredtIn := false
+							for _, v := range repList {
+								if v == k {
+									alredtIn = true
+									break
+								}
+							}
+							if !alredtIn {
+								repList = append(repList, k)
+							}
+						}
 
 					}
 
